@@ -184,9 +184,10 @@ class Run:
             self.backend.getaddrinfo_delay = (0.0, 1 / 64.0, 3 / 64.0)[world.choose("dns_delay", 3)]
             self.init_delay = (0.0, 0.0, 1 / 64.0, 4 / 64.0)[world.choose("init_delay", 4)]
             self.handle_delay = (0.0, 0.0, 2 / 64.0, 10 / 64.0)[world.choose("handle_delay", 4)]
+            self.quit_delay = (0.0, 0.0, 3 / 64.0, 12 / 64.0)[world.choose("quit_delay", 4)]
         else:
-            self.init_delay = self.handle_delay = 0.0
-        if self.backend.getaddrinfo_delay or self.init_delay or self.handle_delay:
+            self.init_delay = self.handle_delay = self.quit_delay = 0.0
+        if self.backend.getaddrinfo_delay or self.init_delay or self.handle_delay or self.quit_delay:
             world.fault("delay")
         # ---- history
         self.ntasks = 1 + world.choose("ntasks", 3)
@@ -202,7 +203,7 @@ class Run:
         self.current: dict[str, str] = {}  # actor -> call in progress (for the no-deadlock message)
         self.nclients = 0
         self.srv: Any = None
-        world.notes.update(harness=self.harness, host=self.host, programs=[[op for op, _ in p] for p in self.programs], init_delay=self.init_delay, handle_delay=self.handle_delay, dns_delay=self.backend.getaddrinfo_delay, perturb=self.perturb)
+        world.notes.update(harness=self.harness, host=self.host, programs=[[op for op, _ in p] for p in self.programs], init_delay=self.init_delay, handle_delay=self.handle_delay, quit_delay=self.quit_delay, dns_delay=self.backend.getaddrinfo_delay, perturb=self.perturb)
 
     # -------------------------------------------------- yields
     def _draw_yield(self) -> tuple:
@@ -226,6 +227,24 @@ class Run:
             self.world.fault("delay")
             await asyncio.sleep(spec[1] / 64.0)
 
+    def register_service_quit(self, exit_stack: Any, server: Any) -> None:
+        """service tear-down that takes virtual time and is protected from cancellation ("flush state before quitting"): it is
+        part of serve_forever's tear-down, so it is lifecycle evidence that serving has NOT fully stopped yet"""
+        if not self.quit_delay:
+            return
+        run = self
+        backend = server.backend()
+
+        async def slow_quit() -> None:
+            run.rec.handler("service-quit-begin")
+            await asyncio.sleep(run.quit_delay)
+            run.rec.handler("service-quit-end")
+
+        async def service_quit() -> None:
+            await backend.ignore_cancellation(slow_quit())
+
+        exit_stack.push_async_callback(service_quit)
+
     # -------------------------------------------------- server + handler
     def make_server(self) -> Any:
         run = self
@@ -242,6 +261,7 @@ class Run:
 
             class TCPHandler(AsyncStreamRequestHandler):
                 async def service_init(self, exit_stack: Any, server: Any) -> None:
+                    run.register_service_quit(exit_stack, server)
                     if run.init_delay:
                         await asyncio.sleep(run.init_delay)
 
@@ -252,6 +272,7 @@ class Run:
 
         class UDPHandler(AsyncDatagramRequestHandler):
             async def service_init(self, exit_stack: Any, server: Any) -> None:
+                run.register_service_quit(exit_stack, server)
                 if run.init_delay:
                     await asyncio.sleep(run.init_delay)
 
@@ -527,7 +548,6 @@ def _h(world: World, kind: str) -> None:
 # (atomic=(): where a call takes effect between invoke and return is unknown), same extra clauses.
 THREAD_OPS = ("serve_bg", "shutdown", "client", "is_serving", "close", "serve", "serve_nst", "client", "shutdown_t", "close")
 SHUTDOWN_TIMEOUTS = (0.0, 1 / 64.0, 8 / 64.0)
-UNTIMED_AS = 4.0
 
 
 class _RecordedServer:
@@ -577,11 +597,6 @@ class _RecordedServer:
         opid = rec.invoke(actor, L.SHUTDOWN)
         run.current[actor] = f"shutdown#{opid}"
         t0 = run.world.now
-        if timeout is None and run.world.avoid_known:
-            # open finding (shutdown() that overlaps the very start of a serve_forever() waits for a server it never asked to
-            # stop, possibly forever): with API.md rule 6 the untimed call is issued with a long timeout, so that this class ends
-            # as "timed_out" instead of a hang; the remaining runs keep the untimed call
-            timeout = UNTIMED_AS
         try:
             self._srv.shutdown(timeout) if timeout is not None else self._srv.shutdown()
         except ThreadAbort:
@@ -649,9 +664,10 @@ class ThreadRun:
             self.backend.getaddrinfo_delay = (0.0, 1 / 64.0, 3 / 64.0)[world.choose("dns_delay", 3)]
             self.init_delay = (0.0, 0.0, 1 / 64.0, 4 / 64.0)[world.choose("init_delay", 4)]
             self.handle_delay = (0.0, 0.0, 2 / 64.0, 10 / 64.0)[world.choose("handle_delay", 4)]
+            self.quit_delay = (0.0, 0.0, 3 / 64.0, 12 / 64.0)[world.choose("quit_delay", 4)]
         else:
-            self.init_delay = self.handle_delay = 0.0
-        if self.backend.getaddrinfo_delay or self.init_delay or self.handle_delay:
+            self.init_delay = self.handle_delay = self.quit_delay = 0.0
+        if self.backend.getaddrinfo_delay or self.init_delay or self.handle_delay or self.quit_delay:
             world.fault("delay")
         self.ntasks = 1 + world.choose("ntasks", 3)
         nops = 1 + world.choose("nops", 7)
@@ -667,7 +683,7 @@ class ThreadRun:
         self.bg: list[Any] = []  # every thread started for a serve_forever
         self.nclients = 0
         self.actor_by_ident: dict[int, str] = {}
-        world.notes.update(harness=self.harness, host=self.host, programs=[[op for op, _a, _y in p] for p in self.programs], switch_den=self.switch_den, fine=self.fine, max_preemptions=self.max_preemptions, preempt_den=self.preempt_den, init_delay=self.init_delay, handle_delay=self.handle_delay, dns_delay=self.backend.getaddrinfo_delay)
+        world.notes.update(harness=self.harness, host=self.host, programs=[[op for op, _a, _y in p] for p in self.programs], switch_den=self.switch_den, fine=self.fine, max_preemptions=self.max_preemptions, preempt_den=self.preempt_den, init_delay=self.init_delay, handle_delay=self.handle_delay, quit_delay=self.quit_delay, dns_delay=self.backend.getaddrinfo_delay)
 
     def _draw_yield(self) -> int:
         if not self.perturb:
@@ -684,6 +700,24 @@ class ThreadRun:
         import threading
 
         self.actor_by_ident[threading.get_ident()] = name
+
+    def register_service_quit(self, exit_stack: Any, server: Any) -> None:
+        """service tear-down that takes virtual time and is protected from cancellation ("flush state before quitting"): it is
+        part of serve_forever's tear-down, so it is lifecycle evidence that serving has NOT fully stopped yet"""
+        if not self.quit_delay:
+            return
+        run = self
+        backend = server.backend()
+
+        async def slow_quit() -> None:
+            run.rec.handler("service-quit-begin")
+            await asyncio.sleep(run.quit_delay)
+            run.rec.handler("service-quit-end")
+
+        async def service_quit() -> None:
+            await backend.ignore_cancellation(slow_quit())
+
+        exit_stack.push_async_callback(service_quit)
 
     def make_server(self) -> Any:
         from easynetwork.servers.standalone_tcp import StandaloneTCPNetworkServer
@@ -705,6 +739,7 @@ class ThreadRun:
 
             class TCPHandler(AsyncStreamRequestHandler):
                 async def service_init(self, exit_stack: Any, server: Any) -> None:
+                    run.register_service_quit(exit_stack, server)
                     if run.init_delay:
                         await asyncio.sleep(run.init_delay)
 
@@ -715,6 +750,7 @@ class ThreadRun:
 
         class UDPHandler(AsyncDatagramRequestHandler):
             async def service_init(self, exit_stack: Any, server: Any) -> None:
+                run.register_service_quit(exit_stack, server)
                 if run.init_delay:
                     await asyncio.sleep(run.init_delay)
 
@@ -860,14 +896,7 @@ class ThreadRun:
                     elif op == "shutdown_t":
                         self.srv.shutdown(arg)
                     elif op == "close":
-                        if self.world.avoid_known:
-                            # open finding (standalone server_close() during the set-up window swallows BusyResourceError and
-                            # returns while the server comes up): postponed until no serve_forever can be starting; API.md rule 6
-                            for _ in range(int(CALL_BOUND * 64)):
-                                if not self.rec.model.possibly(L.STARTING):
-                                    break
-                                time.sleep(1 / 64.0)
-                        self.srv.server_close()
+                        self.srv.server_close()  # also while a serve_forever is in its set-up window (BusyResourceError then)
                     elif op == "is_serving":
                         self.srv.is_serving()
                     elif op == "client":
@@ -997,8 +1026,6 @@ def _h_threads(world: World, kind: str) -> None:
     world.probe(f"model-peak-configs>={min(run.rec.model.peak, 64) // 8 * 8}")
 
 
-# NB: the runner derives avoid_known from (run index % 5): keep the schedule length (sum of weights) coprime to 5, otherwise
-# some harness would never see avoid_known == False
 HARNESSES = [
     Harness("aio-tcp", lambda w: _h(w, "tcp"), weight=3),
     Harness("aio-udp", lambda w: _h(w, "udp"), weight=3),
